@@ -153,8 +153,15 @@ struct Engine {
   void verify_slot(Slot<V> &s, int gid, const OpInfo &oi, std::vector<uint32_t> &all_serials, long &visible) {
     if (!s.obj) return;
     Snap now;
-    take_snap(*s.obj, now);
+    take_head(*s.obj, now);
     if (!now.sane) return;
+    // C05 first, on what can be observed without touching the elements: a wrong discriminator makes data() garbage
+    if (VecInfo<V>::kSmall && s.entitled) {
+      if (now.cap != VecInfo<V>::kN) violation("C05", "inline.capacity_not_N", fmt("slot %d: entitled SmallVector reports capacity() %ju, N is %ju (size %ju)", gid, now.cap, static_cast<uintmax_t>(VecInfo<V>::kN), now.size));
+      if (!now.inl) { violation("C05", "inline.data_outside_object", fmt("slot %d: entitled SmallVector keeps its elements outside the object (size %ju)", gid, now.size)); return; }
+    }
+    if (VecInfo<V>::kFixed && !now.inl) { violation("C05", "fixed.data_outside_object", "FixedCapacityVector storage outside the object"); return; }
+    take_elems(*s.obj, now);
     visible += static_cast<long>(now.size);
     all_serials.insert(all_serials.end(), now.serials.begin(), now.serials.end());
     // C01: model
@@ -198,14 +205,9 @@ struct Engine {
         }
       }
     }
-    // C05
-    if (VI::kSmall && s.entitled) {
-      if (now.cap != VI::kN) violation("C05", "inline.capacity_not_N", fmt("slot %d: entitled SmallVector reports capacity() %ju, N is %ju (size %ju)", gid, now.cap, static_cast<uintmax_t>(VI::kN), now.size));
-      if (!now.inl) violation("C05", "inline.data_outside_object", fmt("slot %d: entitled SmallVector keeps its elements outside the object (size %ju)", gid, now.size));
-    }
+    // C05 (the entitlement rules were judged above, before the elements were read)
     if (VI::kFixed) {
       if (now.data != s.begin0 && !s.fresh) violation("C05", "fixed.begin_changed", fmt("slot %d: FixedCapacityVector begin() changed", gid));
-      if (!now.inl) violation("C05", "fixed.data_outside_object", "FixedCapacityVector storage outside the object");
     }
     if (s.fresh) s.begin0 = now.data;
     s.prev.~Snap();
